@@ -400,6 +400,7 @@ func overlayFiles(repo, verif string) (map[string]string, error) {
 	}
 	add(filepath.Join(verif, "rt"), filepath.Join(repo, "zzverif", "rt"), "")
 	add(filepath.Join(verif, "models"), filepath.Join(repo, "zzverif", "models"), "")
+	add(filepath.Join(verif, "rtsig"), filepath.Join(repo, "zzverif", "rtsig"), "")
 	hroot := filepath.Join(verif, "harness")
 	err := filepath.Walk(hroot, func(p string, info os.FileInfo, err error) error {
 		if err != nil || info.IsDir() || !strings.HasSuffix(p, ".go") {
